@@ -510,6 +510,10 @@ def _cpperm_case(draw):
     c["w1"] = [k / 4 for k in draw(wl)]
     c["w2"] = [k / 4 for k in draw(wl)]
     c["as_list"] = draw(st.booleans())
+    # forced share (seed-independence pass, seeded changes C20-r2m3 / C20-r3m1): a tensor to permute whose scale is carried by
+    # its factor columns and is clearly unequal across components (30 / 1 / 0.05), with a matching that is not clear-cut
+    if c["rel"] != "equivalent" and draw(st.integers(0, 2)) < 2:
+        c["cscale"] = [[draw(st.sampled_from([30.0, 0.05, 1.0])) for _ in range(R)] for _ in c["rows"]]
     return c
 
 
@@ -518,6 +522,9 @@ def o_cp_permute(case):
     R = case["R"]
     w1, w2 = np.array(case["w1"]), np.array(case["w2"])
     d1, d2 = _dts(case)
+    if case.get("cscale"):
+        d2 = _fdt(d2)
+        f2 = [_quant(f * np.array(cs), d2) for f, cs in zip(f2, case["cscale"])]
     vt = _vt(case)
     refcp = CP.CPTensor((w1.copy(), _as(f1, d1)))
     t = CP.CPTensor((w2.copy(), _as(f2, d2)))
@@ -549,7 +556,7 @@ def o_cp_permute(case):
         for j in range(len(f1)):
             d = np.diag(cos_matrix(f1[j], np.asarray(ofs[j], dtype=float), True))
             check(bool(np.all(np.abs(d - 1) <= _vt(case, 1e-9))), "cp_permute_factors/aligned-collinear", lambda: f"mode {j}: |cos| {d.tolist()}")
-    return {"nontrivial": _nontrivial(case), "labels": _labels(case, [f"as_list={case['as_list']}"])}
+    return {"nontrivial": _nontrivial(case), "labels": _labels(case, [f"as_list={case['as_list']}", f"unequal_col_scales={bool(case.get('cscale'))}"])}
 
 
 # ----------------------------------------------------------------------------
@@ -559,7 +566,8 @@ def o_cp_permute(case):
 def _err_case(draw, min_side=1):
     shape = draw(gen.shapes(1, 3, min_side, 5))
     nd = len(shape)
-    ax = draw(st.sampled_from(["none"] + list(range(nd)) + [-1]))
+    # every negative axis is a first-class option (seed-independence pass, seeded change C20-r3m2: axis = -1 / -2 on 2-D / 3-D input)
+    ax = draw(st.sampled_from(list(range(-nd, 0)) + ["none"] + list(range(nd))))
     return {"shape": shape, "a": draw(gen.arr(shape, kinds=("int", "normal", "dyadic"))), "b": draw(gen.arr(shape, kinds=("int", "normal", "dyadic"))),
             "axis": ax, "omit_axis": bool(ax == "none" and draw(st.booleans()))}
 
